@@ -153,6 +153,23 @@ Section Answers.
     | [] => true
     | (o, ob) :: h' => spec_step_ok tolF9 tolF11 L o ob && run_spec tolF9 tolF11 (o_ledger (spec_step L o)) h'
     end.
+  (* diagnostics: which conjuncts of [spec_step_ok] hold at a step *)
+  Definition spec_step_diag (L : ledger) (o : cop) (ob : sobs) : list bool :=
+    let x := spec_step L o in
+    let L' := o_ledger x in
+    [negb (s_exc ob); ret_eqb (s_ret ob) (o_ret x); events_ok_tolerant false false L o (s_events ob);
+     llnat_eq (canon (s_lu ob)) (canon (map rec_u (l_u L')));
+     llnat_eq (canon (s_la ob)) (canon (map rec_a (l_a L')));
+     llnat_eq (canon (s_ls ob)) (canon (map rec_s (l_s L')));
+     llnat_eq (canon (s_lh ob)) (canon (map rec_h (l_h L')));
+     q_probe L' (s_probe ob)] ++ map (spec_query L') (s_queries ob).
+
+  Fixpoint first_spec_bad (i : nat) (L : ledger) (h : list (cop * sobs)) : option (nat * list bool) :=
+    match h with
+    | [] => None
+    | (o, ob) :: h' => if spec_step_ok false false L o ob then first_spec_bad (S i) (o_ledger (spec_step L o)) h'
+                       else Some (i, spec_step_diag L o ob)
+    end.
 End Answers.
 
 Definition model_all (c : case_t) : list sobs :=
@@ -175,3 +192,8 @@ Definition check_spec_tol (tolF9 tolF11 : bool) (c : case_t) : bool :=
   let '(g, ifs, _, h) := c in run_spec (mk_world g ifs) tolF9 tolF11 lempty h.
 
 Definition check_spec (c : case_t) : bool := check_spec_tol false false c.
+
+(* diagnostics: first step violating the Spec, with the truth value of each conjunct
+   (no-exception, return, events, four listings, probe, then one per query) *)
+Definition spec_out (c : case_t) : option (nat * list bool) :=
+  let '(g, ifs, _, h) := c in first_spec_bad (mk_world g ifs) 0 lempty h.
